@@ -9,7 +9,7 @@ from .. import quat, stubs, sym
 from ..sarr import SArr, patched, sarr
 from ..sym import R, ite, real
 from . import mineral_h as mh
-from .common import all_eq, eq, np_installed, pydrex_modules, sample, only_path
+from .common import all_eq, eq, main_path, np_installed, pydrex_modules, sample, only_path
 
 TIMEOUT_MS = {"quick": 60000, "thorough": 300000}
 
@@ -46,9 +46,9 @@ def t_apply_gbs(sess, n_grains):
 
     with np_installed(utils):
         paths, info = sym.explore(fn)
-    if len(paths) != 1 or paths[0].exc is not None:
-        raise sym.HarnessError(f"unexpected paths {paths} {info}")
-    p = only_path(sess, paths)
+    p = main_path(sess, paths, "apply_gbs")
+    if p is None:
+        return
     cur0, f0, prev0, chi, o, fr, prev_after = p.value
     pc = p.pc
     tag = f"apply_gbs[N={N}]"
@@ -121,9 +121,9 @@ def t_call_site(sess, n_grains, steps, regime="matrix_dislocation"):
 
     with mh.env(plan, log, derivatives=mh.deriv_stub_factory(dlog, N), extra=[(utils, "apply_gbs", gbs_spy)]):
         paths, info = sym.explore(fn)
-    if not paths or paths[0].exc is not None:
-        raise sym.HarnessError(f"unexpected paths {paths} {info}")
-    p = only_path(sess, paths)
+    p = main_path(sess, paths, "GBS call site")
+    if p is None:
+        return
     m, snaps, params, start, calls, Fm = p.value
     pc = p.pc
     tag = f"call site[N={N}, {regime}]"
